@@ -127,6 +127,7 @@ type Plan struct {
 	ReadChunks []int       `json:"read_chunks,omitempty"` // sizes the driver's Reads are limited to, cyclic; empty: unlimited
 	Writes     []WriteRule `json:"writes,omitempty"`
 	CutAt      int         `json:"cut_at,omitempty"` // >0: after this many bytes written in total the connection dies mid-write
+	WriteDelayUs int       `json:"write_delay_us,omitempty"` // >0: every Write of the driver takes this long before its bytes are delivered (a slow link)
 }
 
 // WriteRec records one Write call of the driver.
@@ -205,6 +206,15 @@ func (c *Conn) Write(p []byte) (int, error) {
 	dl := c.wdeadline
 	c.mu.Unlock()
 
+	if d := c.plan.WriteDelayUs; d > 0 {
+		t := time.NewTimer(time.Duration(d) * time.Microsecond)
+		select {
+		case <-t.C:
+		case <-c.done:
+		case <-c.peerDone:
+		}
+		t.Stop()
+	}
 	accept, errS, closeAfter := len(p), "", false
 	if rule != nil {
 		if rule.Accept >= 0 && rule.Accept < accept {
